@@ -4,6 +4,8 @@ CONSTANTS
   MaxRegens = 8
   Invalid <- TraceInvalid
   Mode = "serialized"
+  Dirs = {"main", "imp"}
+  WatchDirs = "rearm"
   Kinds = {"any"}
 CONSTRAINT HighWater
 INVARIANTS NoOverlap
